@@ -4,6 +4,7 @@ import (
 	"bytes"
 	"encoding/json"
 	"fmt"
+	"io"
 	"os"
 	"os/exec"
 	"reflect"
@@ -25,6 +26,7 @@ import (
 	"github.com/ucan-wg/go-ucan/token"
 	"github.com/ucan-wg/go-ucan/token/delegation"
 	"github.com/ucan-wg/go-ucan/token/invocation"
+	"github.com/ucan-wg/go-ucan/verifshim/sched"
 
 	"verifharness/engine"
 	"verifharness/fixtures"
@@ -985,4 +987,150 @@ func c10ConcSub() *engine.Sub {
 			}
 			return cs
 		}, allPairs, 2, 3)
+}
+
+// seamReader / seamWriter: the caller's stream, whose every Read / Write is a scheduling point (a
+// network connection or pipe on which the goroutine may be descheduled).
+type seamReader struct {
+	data []byte
+	pos  int
+	step int
+}
+
+func (r *seamReader) Read(p []byte) (int, error) {
+	sched.Point("io.Read")
+	if r.pos >= len(r.data) {
+		return 0, io.EOF
+	}
+	n := r.step
+	if n <= 0 || n > len(p) {
+		n = len(p)
+	}
+	if n > len(r.data)-r.pos {
+		n = len(r.data) - r.pos
+	}
+	copy(p, r.data[r.pos:r.pos+n])
+	r.pos += n
+	return n, nil
+}
+
+type seamSink struct {
+	buf bytes.Buffer
+	n   int
+}
+
+// (a point at the first 8 writes and then at every 16th: encoders issue hundreds of tiny writes)
+func (w *seamSink) Write(p []byte) (int, error) {
+	w.n++
+	if w.n <= 8 || w.n%16 == 0 {
+		sched.Point("io.Write")
+	}
+	return w.buf.Write(p)
+}
+
+func c18ConcSub() *engine.Sub {
+	return engine.ConcurrentSubSweep("concurrent-streams", "tokens and containers read from / written to streams whose every Read / Write is a scheduling point, from two logical threads",
+		func(tier string) []engine.Call {
+			var cs []engine.Call
+			for _, set := range [][]string{{"dlg", "inv"}, {"dlg3", "dlgbig"}} {
+				for _, f := range []string{"car", "car64", "cbor", "cbor64"} {
+					set, f := set, f
+					w := container.NewWriter()
+					for _, n := range set {
+						t := ioToken(n)
+						w.AddSealed(t.Cid, t.Sealed)
+					}
+					data, err := writeContainer(w, f, false)
+					if err != nil {
+						panic(err)
+					}
+					want := expectedSetView(set)
+					cs = append(cs, engine.Call{Name: fmt.Sprintf("stream-read %s%v", f, set), Want: want, Run: func() string {
+						rd := &seamReader{data: data, step: 257}
+						var r container.Reader
+						var err error
+						switch f {
+						case "car":
+							r, err = container.FromCarReader(rd)
+						case "car64":
+							r, err = container.FromCarBase64Reader(rd)
+						case "cbor":
+							r, err = container.FromCborReader(rd)
+						default:
+							r, err = container.FromCborBase64Reader(rd)
+						}
+						if err != nil {
+							return "error:" + err.Error()
+						}
+						return containerView(r)
+					}})
+					cs = append(cs, engine.Call{Name: fmt.Sprintf("stream-write %s%v", f, set), Want: want, Run: func() string {
+						w := container.NewWriter()
+						for _, n := range set {
+							t := ioToken(n)
+							w.AddSealed(t.Cid, t.Sealed)
+						}
+						var sink seamSink
+						var err error
+						switch f {
+						case "car":
+							err = w.ToCarWriter(&sink)
+						case "car64":
+							err = w.ToCarBase64Writer(&sink)
+						case "cbor":
+							err = w.ToCborWriter(&sink)
+						default:
+							err = w.ToCborBase64Writer(&sink)
+						}
+						if err != nil {
+							return "write-error:" + err.Error()
+						}
+						r, err := readContainer(sink.buf.Bytes(), f, false)
+						if err != nil {
+							return "error:" + err.Error()
+						}
+						return containerView(r)
+					}})
+				}
+			}
+			for _, n := range []string{"dlg", "inv", "dlgbig", "dlg3"} {
+				t := ioToken(n)
+				want := "ok:" + t.Cid.String() + ":" + viewString(t.Tok, nil)
+				cs = append(cs, engine.Call{Name: "FromSealedReader(" + n + ")", Want: want, Run: func() string {
+					tk, c, err := token.FromSealedReader(&seamReader{data: t.Sealed, step: 61})
+					if err != nil {
+						return "error:" + err.Error()
+					}
+					return "ok:" + c.String() + ":" + viewString(tk, nil)
+				}})
+				cs = append(cs, engine.Call{Name: "ToSealedWriter(" + n + ")", Want: "ok:" + t.Cid.String(), Run: func() string {
+					var sink seamSink
+					c, err := t.Tok.(writerSealer).ToSealedWriter(&sink, t.Key.Priv)
+					if err != nil {
+						return "error:" + err.Error()
+					}
+					if t.Key.Alg == "ed25519" && !bytes.Equal(sink.buf.Bytes(), t.Sealed) {
+						return "bytes-differ"
+					}
+					if refCID(sink.buf.Bytes()) != c {
+						return "cid-differs"
+					}
+					return "ok:" + c.String()
+				}})
+			}
+			return cs
+		},
+		func(tier string, n int) [][2]int {
+			var r [][2]int
+			step := 4
+			if tier == "thorough" {
+				step = 1
+			}
+			for i := 0; i < n; i++ {
+				for j := i % step; j < n; j += step {
+					r = append(r, [2]int{i, j})
+				}
+			}
+			return r
+		}, func(string, int) []int { return nil }, 1, 2)
 }
